@@ -9,6 +9,7 @@ package lib
 import (
 	"encoding/binary"
 	"encoding/json"
+	"errors"
 	"fmt"
 	"io"
 	"net"
@@ -17,6 +18,7 @@ import (
 	"os"
 	"sync"
 	"sync/atomic"
+	"syscall"
 	"testing"
 	"time"
 
@@ -301,4 +303,217 @@ func TestVerifAdmission(t *testing.T) {
 		}
 	})
 	out.Emit(map[string]any{"kind": "summary", "rows": nrows, "mismatches": nmis})
+}
+
+// ---------------------------------------------------------------- the real liveness probe (spec/Probe)
+//
+// TestVerifAdmissionProbe executes the rows of spec/Probe on the real code with REAL sockets: the station's own liveness
+// tester (liveness.New with an empty configuration = the uncached tester around phantomIsLive) probes loopback endpoints
+// that accept, refuse (closed port: RST), are unreachable (an address without a route, if this host has one) or stay
+// silent (a listener whose accept queue is full: the kernel drops further SYNs).  Each endpoint's class is established by
+// an independent dial of the driver before and after the row.  Two levels: the tester alone, and a complete registration
+// (phantom and port pinned to the endpoint by the registrar's overrides) through parseRegMessage + ingestRegistration.
+
+type vprEndpoint struct {
+	kind    string
+	ip      net.IP
+	port    int
+	cleanup func()
+}
+
+func vprClassify(ip net.IP, port int) string {
+	c, err := net.DialTimeout("tcp", net.JoinHostPort(ip.String(), fmt.Sprint(port)), 600*time.Millisecond)
+	if err == nil {
+		c.Close()
+		return "accepts"
+	}
+	var ne net.Error
+	if errors.As(err, &ne) && ne.Timeout() {
+		return "silent"
+	}
+	if errors.Is(err, syscall.ECONNREFUSED) {
+		return "refuses"
+	}
+	if errors.Is(err, syscall.ENETUNREACH) || errors.Is(err, syscall.EHOSTUNREACH) {
+		return "unreachable"
+	}
+	return "other:" + err.Error()
+}
+
+func vprAccepting() (*vprEndpoint, error) {
+	ln, err := net.Listen("tcp4", "127.0.0.1:0")
+	if err != nil {
+		return nil, err
+	}
+	go func() {
+		for {
+			c, err := ln.Accept()
+			if err != nil {
+				return
+			}
+			c.Close()
+		}
+	}()
+	return &vprEndpoint{kind: "accepts", ip: net.ParseIP("127.0.0.1"), port: ln.Addr().(*net.TCPAddr).Port, cleanup: func() { ln.Close() }}, nil
+}
+
+func vprRefusing() (*vprEndpoint, error) {
+	ln, err := net.Listen("tcp4", "127.0.0.1:0")
+	if err != nil {
+		return nil, err
+	}
+	port := ln.Addr().(*net.TCPAddr).Port
+	ln.Close() // nobody listens there any more: the kernel answers SYNs with RST
+	return &vprEndpoint{kind: "refuses", ip: net.ParseIP("127.0.0.1"), port: port, cleanup: func() {}}, nil
+}
+
+// a listener with backlog 0 whose accept queue has been filled: further SYNs are dropped silently
+func vprSilent() (*vprEndpoint, error) {
+	fd, err := syscall.Socket(syscall.AF_INET, syscall.SOCK_STREAM, 0)
+	if err != nil {
+		return nil, err
+	}
+	if err := syscall.Bind(fd, &syscall.SockaddrInet4{Addr: [4]byte{127, 0, 0, 1}}); err != nil {
+		syscall.Close(fd)
+		return nil, err
+	}
+	if err := syscall.Listen(fd, 0); err != nil {
+		syscall.Close(fd)
+		return nil, err
+	}
+	sa, err := syscall.Getsockname(fd)
+	if err != nil {
+		syscall.Close(fd)
+		return nil, err
+	}
+	port := sa.(*syscall.SockaddrInet4).Port
+	var held []net.Conn
+	cleanup := func() {
+		for _, c := range held {
+			c.Close()
+		}
+		syscall.Close(fd)
+	}
+	for i := 0; i < 12; i++ {
+		c, err := net.DialTimeout("tcp4", fmt.Sprintf("127.0.0.1:%d", port), 400*time.Millisecond)
+		if err != nil {
+			var ne net.Error
+			if errors.As(err, &ne) && ne.Timeout() {
+				return &vprEndpoint{kind: "silent", ip: net.ParseIP("127.0.0.1"), port: port, cleanup: cleanup}, nil
+			}
+			cleanup()
+			return nil, err
+		}
+		held = append(held, c)
+	}
+	cleanup()
+	return nil, fmt.Errorf("the accept queue never filled up")
+}
+
+func vprUnreachable() (*vprEndpoint, error) {
+	for _, a := range []string{"192.0.2.1", "198.51.100.1", "203.0.113.1"} {
+		if vprClassify(net.ParseIP(a), 443) == "unreachable" {
+			return &vprEndpoint{kind: "unreachable", ip: net.ParseIP(a), port: 443, cleanup: func() {}}, nil
+		}
+	}
+	return nil, fmt.Errorf("this host routes the documentation networks somewhere")
+}
+
+type vprRow struct {
+	Net        string `json:"net"`
+	Prescanned bool   `json:"prescanned"`
+	Probed     bool   `json:"probed"`
+	Live       bool   `json:"live"`
+	Admitted   bool   `json:"admitted"`
+}
+
+func TestVerifAdmissionProbe(t *testing.T) {
+	out := vOpenOut(t)
+	defer out.Close()
+	os.Setenv("PHANTOM_SUBNET_LOCATION", vingSubnetFile(t))
+	conf := &RegConfig{EnableIPv4: true, EnableIPv6: true}
+	conf.ParseBlocklists()
+	rm := NewRegistrationManager(conf)
+	if rm == nil {
+		t.Fatal("no registration manager")
+	}
+	rm.Logger = log.New(io.Discard, "", 0)
+	// the station's own tester, as NewRegistrationManager built it from an empty configuration: the uncached real probe
+	if got := fmt.Sprintf("%T", rm.LivenessTester); got != "*liveness.UncachedLivenessTester" {
+		t.Fatalf("unexpected default liveness tester %s", got)
+	}
+	_ = rm.AddTransport(pb.TransportType_Min, min.Transport{})
+	var announced int32
+	rm.registeredDecoys.registerForDetector = func(d *DecoyRegistration) { atomic.AddInt32(&announced, 1) }
+	rm.registeredDecoys.updateInDetector = func(d *DecoyRegistration) {}
+	mk := map[string]func() (*vprEndpoint, error){"accepts": vprAccepting, "refuses": vprRefusing, "silent": vprSilent, "unreachable": vprUnreachable}
+	covered := map[string]bool{}
+	nrows := 0
+	vReadLines(t, func(line []byte) {
+		var r vprRow
+		if err := json.Unmarshal(line, &r); err != nil {
+			t.Fatalf("row: %v", err)
+		}
+		ep, err := mk[r.Net]()
+		if err != nil {
+			out.Emit(map[string]any{"kind": "skipped", "row": r, "why": err.Error()})
+			return
+		}
+		defer ep.cleanup()
+		if cls := vprClassify(ep.ip, ep.port); cls != r.Net {
+			out.Emit(map[string]any{"kind": "skipped", "row": r, "why": "endpoint behaves as " + cls})
+			return
+		}
+		nrows++
+		// level 1: the tester alone
+		if !r.Prescanned {
+			live, perr := rm.LivenessTester.PhantomIsLive(ep.ip.String(), uint16(ep.port))
+			if live != r.Live {
+				out.Emit(map[string]any{"kind": "mismatch", "level": "tester", "row": r, "got_live": live, "err": fmt.Sprint(perr)})
+			}
+		}
+		// level 2: a complete registration pinned to the endpoint
+		secret := vSecret(fmt.Sprintf("probe-%d", nrows))
+		tt := pb.TransportType_Min
+		gen := uint32(957)
+		ver := core.CurrentClientLibraryVersion()
+		tr, fl, pre := true, false, r.Prescanned
+		covert := "192.0.2.5:443"
+		c2s := &pb.ClientToStation{Transport: &tt, DecoyListGeneration: &gen, ClientLibVersion: &ver, V4Support: &tr, V6Support: &fl,
+			CovertAddress: &covert, Flags: &pb.RegistrationFlags{Prescanned: &pre}}
+		ip4 := binary.BigEndian.Uint32(ep.ip.To4())
+		port := uint32(ep.port)
+		w := &pb.C2SWrapper{SharedSecret: secret, RegistrationPayload: c2s, RegistrationSource: pb.RegistrationSource_BidirectionalAPI.Enum(),
+			RegistrationAddress: net.ParseIP("198.51.100.7").To4(), RegistrationResponse: &pb.RegistrationResponse{Ipv4Addr: &ip4, DstPort: &port}}
+		raw, err := proto.Marshal(w)
+		if err != nil {
+			t.Fatal(err)
+		}
+		rm.registeredDecoys = NewRegisteredDecoys()
+		_ = rm.AddTransport(pb.TransportType_Min, min.Transport{})
+		atomic.StoreInt32(&announced, 0)
+		rm.registeredDecoys.registerForDetector = func(d *DecoyRegistration) { atomic.AddInt32(&announced, 1) }
+		rm.registeredDecoys.updateInDetector = func(d *DecoyRegistration) {}
+		regs, perr := rm.parseRegMessage(raw)
+		if perr != nil || len(regs) != 1 {
+			out.Emit(map[string]any{"kind": "mismatch", "level": "ingest", "row": r, "err": fmt.Sprint(perr), "what": "registration not built"})
+			return
+		}
+		rm.ingestRegistration(regs[0])
+		visible := len(rm.GetRegistrations(ep.ip)) > 0
+		ann := int(atomic.LoadInt32(&announced))
+		if visible != r.Admitted || (ann == 1) != r.Admitted {
+			out.Emit(map[string]any{"kind": "mismatch", "level": "ingest", "row": r, "visible": visible, "announced": ann})
+		}
+		if cls := vprClassify(ep.ip, ep.port); cls != r.Net {
+			out.Emit(map[string]any{"kind": "unstable", "row": r, "now": cls})
+			return
+		}
+		covered[r.Net] = true
+	})
+	cl := []string{}
+	for k := range covered {
+		cl = append(cl, k)
+	}
+	out.Emit(map[string]any{"kind": "summary", "rows": nrows, "covered": cl})
 }
